@@ -88,6 +88,7 @@ type zzConnCfg struct {
 	poolSize   uint32
 	blockwise  bool // block-wise transfer enabled (SZX 16, the same wiring as udp.Client)
 	limit      int64 // parallel-request limit (0: 4)
+	eplimit    int64 // per-endpoint parallel-request limit (0: 4)
 	monitor    InactivityMonitor
 }
 
@@ -121,6 +122,9 @@ func zzNewConn(s *zzSession, c zzConnCfg) *Conn {
 	cfg.LimitClientEndpointParallelRequests = 4
 	if c.limit > 0 {
 		cfg.LimitClientParallelRequests = c.limit
+	}
+	if c.eplimit > 0 {
+		cfg.LimitClientEndpointParallelRequests = c.eplimit
 	}
 	cfg.ReceivedMessageQueueSize = 2
 	if c.monitor != nil {
